@@ -280,6 +280,48 @@ theorem tr_parts32 (f : UInt32) :
   rw [he, go_shr64_lt _ _ (by omega), tr_bitmask64 23, tr_bitmask64 (Translated.ufloatFracBits E32 23), key, hfb, hS, hu]
   rfl
 
+/-! ### `repeat.reject` -/
+
+theorem i64_ofNat_toInt {n : Nat} (h : n < 2 ^ 62) : (Int64.ofNat n).toInt = n := by
+  rw [Int64.toInt_ofNat_of_lt (by omega)]
+
+/-- **`repeat.reject`**: after `more()` has counted the element (`count = c + 1`) a rejection either
+    panics with "too many rejections" — exactly when the model's `tooManyRejections` says so — or
+    leaves the state the model's loop continues with (forced stop included) -/
+theorem tr_repeatReject (c rj mn : Nat) (f rej : Bool) (hc : c < 2 ^ 60) (hr : rj < 2 ^ 60) (hm : mn < 2 ^ 62)
+    (cfg : RCfg) (hcfg : cfg.minC = mn) :
+    Translated.repeatReject (Int64.ofNat (c + 1)) f (Int64.ofNat mn) rej (Int64.ofNat rj) =
+      if tooManyRejections cfg ⟨c, rj, f⟩ then none
+      else some (Int64.ofNat c, (f || decide (rj + 1 > c * 2)), Int64.ofNat mn, true, Int64.ofNat (rj + 1)) := by
+  have e1 : Int64.ofNat (c + 1) - 1 = Int64.ofNat c := by
+    apply Int64.toInt_inj.mp
+    rw [Int64.toInt_sub, i64_ofNat_toInt (by omega), i64_ofNat_toInt (by omega)]
+    have : (1 : Int64).toInt = 1 := by decide
+    rw [this]
+    have h2 : ((c + 1 : Nat) : Int) - 1 = (c : Int) := by omega
+    rw [h2]; apply Int.bmod_eq_of_le <;> omega
+  have e2 : Int64.ofNat rj + 1 = Int64.ofNat (rj + 1) := by
+    apply Int64.toInt_inj.mp
+    rw [Int64.toInt_add, i64_ofNat_toInt (by omega), i64_ofNat_toInt (by omega)]
+    have : (1 : Int64).toInt = 1 := by decide
+    rw [this]
+    have h2 : (rj : Int) + 1 = ((rj + 1 : Nat) : Int) := by omega
+    rw [h2]; apply Int.bmod_eq_of_le <;> omega
+  have e3 : (Int64.ofNat c * 2).toInt = (c : Int) * 2 := by
+    rw [Int64.toInt_mul, i64_ofNat_toInt (by omega)]
+    have : (2 : Int64).toInt = 2 := by decide
+    rw [this]; apply Int.bmod_eq_of_le <;> omega
+  have g1 : (Int64.ofNat (rj + 1) > Int64.ofNat c * 2) ↔ rj + 1 > c * 2 := by
+    rw [gt_iff_lt, Int64.lt_iff_toInt_lt, e3, i64_ofNat_toInt (by omega)]; omega
+  have g2 : (Int64.ofNat c ≥ Int64.ofNat mn) ↔ c ≥ mn := by
+    rw [ge_iff_le, Int64.le_iff_toInt_le, i64_ofNat_toInt (n := c) (by omega), i64_ofNat_toInt hm]; omega
+  simp only [Translated.repeatReject, e1, e2, decide_eq_true_eq, g1, g2, tooManyRejections, hcfg]
+  by_cases h1 : rj + 1 > c * 2
+  · by_cases h2 : c ≥ mn
+    · simp [h1, h2]
+    · simp [h1, h2]
+  · simp [h1]
+
 /-! ### the loop of `genUfloatRange` that clears low bits -/
 
 theorem tr_clearLoop (maxR : Int64) (r sfMin : UInt64) (hb : (maxR.toUInt64 - r).toNat ≤ 64) :
